@@ -1629,3 +1629,13 @@ Proof.
   - inversion Hnd; subst. intro Hin. apply In_firstn in Hin. tauto.
   - inversion Hnd; subst. apply IH. assumption.
 Qed.
+
+(* a report of a trial that is not running (late report after STOP / PAUSE / failure / completion) is ignored:
+   nothing is stored, no pending evaluation is registered, the earlier decision is repeated; and the
+   on_trial_remove the tuner issues for that decision leaves the searcher state alone *)
+Lemma late_report_ignored cfg st t r v cont rec : find t (trials st) = Some rec -> dec rec <> CONTINUE ->
+  on_trial_result cfg st t r v cont = Ok (st, dec rec) /\ srch (on_trial_remove st t) = srch st.
+Proof.
+  intros Hf Hd. unfold on_trial_result, on_trial_remove. rewrite Hf. split; [|reflexivity].
+  destruct (dec rec); [congruence | reflexivity | reflexivity].
+Qed.
